@@ -74,11 +74,11 @@ def make_script(rng, bursts):
             ops.append(("ctrl", i, W.cmd("CMD FAKE_TOA %d %d" % (rng.choice([-300, 0, 64, 1000]), rng.choice([0, 0, 3, 100])))))
         elif w == 3:
             if rng.chance(1, 2):
-                ops.append(("ctrl", i, W.cmd("CMD FAKE_RSSI %d %d" % (rng.choice([-110, -85, -60, -50]), rng.choice([0, 0, 2, 5, -1])))))
+                ops.append(("ctrl", i, W.cmd("CMD FAKE_RSSI %d %d" % (rng.choice([-110, -85, -60, -50]), rng.choice([0, 0, 2, 5, 25, 25, -1])))))
             else:
                 ops.append(("ctrl", i, W.cmd("CMD FAKE_RSSI %d" % rng.choice([-5, 3]))))
         elif w == 4:
-            ops.append(("ctrl", i, W.cmd("CMD FAKE_CI %d %d" % (rng.choice([-100, 0, 90, 300]), rng.choice([0, 0, 5, 50])))))
+            ops.append(("ctrl", i, W.cmd("CMD FAKE_CI %d %d" % (rng.choice([-100, 0, 90, 300]), rng.choice([0, 0, 1, 5, 50])))))
         elif w == 5:
             ops.append(("ctrl", i, W.cmd("CMD FAKE_TOA %d" % rng.choice([-20, 20]))))
         else:
